@@ -1,6 +1,7 @@
 """C03 A publication point contributes one consistent object set (M engine + K)."""
 import re
 
+import mir
 import mprop
 
 INLINE = [r"PubPoint::process_collected$", r"StoredPoint::update$", r"StoredPoint::_update$", r"UpdateError::fatal$"]
@@ -70,4 +71,72 @@ def run(res, tier):
                 "update closure that hands at least one fetched object to the processor and then falls back to "
                 "process_stored; the assertion (restart in between) is evaluated on each; evaluations = z3 "
                 "feasibility queries")
+    mprop.finish_engine(res, E)
+    check_restart(res)
+
+
+def check_restart(res):
+    """PubPointProcessor::restart / PubPoint::restart clear every payload list that commit() looks at."""
+    E = mprop.engine(res)
+    fields = mir.struct_fields("PubPoint", "src/payload/validation.rs")
+    selfp = mir.Opq("&mut PubPoint", "self")
+    body = E.prog.find("src/payload/validation.rs", "PubPoint", "restart")
+    res.functions.append("routinator::payload::validation::PubPoint::{restart, is_empty} and "
+                         "PubPointProcessor::{restart, commit} (MIR)")
+
+    def touched(paths, pat):
+        out = []
+        for p in paths:
+            if p.kind != "return":
+                continue
+            s = set()
+            for e in p.events:
+                if e.kind == "call" and re.search(pat, e.name) and e.args:
+                    a = e.args[0].get(())
+                    if isinstance(a, mir.Ref) and a.loc[:2] == (("o", selfp.id), "deref") and len(a.loc) >= 3:
+                        s.add(fields[a.loc[2][1]])
+            out.append((p, s))
+        return out
+    rp = touched(E.explore(body, max_visits=2, arg_values={"_1": {(): selfp}}), r"Vec::clear$")
+    ib = E.prog.find("src/payload/validation.rs", "PubPoint", "is_empty")
+    ip = touched(E.explore(ib, max_visits=2, nomut=[r"."], arg_values={"_1": {(): selfp}}), r"Vec::is_empty$")
+    examined = set()
+    for _, s in ip:
+        examined |= s
+    # every Vec field of the struct counts as payload
+    src = open(mir.os.path.join(mir.REPO, "src/payload/validation.rs")).read()
+    m = re.search(r"pub struct PubPoint \{(.*?)\n\}", src, re.S)
+    vec_fields = set(re.findall(r"(\w+): Vec<", m.group(1))) if m else set()
+    need = examined | vec_fields
+    n = 0
+    for p, cleared in rp:
+        n += 1
+        missing = sorted(need - cleared)
+        if missing:
+            fn = mprop.write_cex(res, "restart_keeps_%s" % "_".join(missing), p, E,
+                                 "PubPoint::restart does not clear %s (is_empty examines %s, Vec fields %s)"
+                                 % (missing, sorted(examined), sorted(vec_fields)))
+            res.violation("mir:restart-keeps:" + ",".join(missing),
+                          "restart() keeps payload of the abandoned object set: %s not cleared" % ", ".join(missing), fn)
+        # refresh is reset from orig_refresh
+        i_r, i_o = fields.index("refresh"), fields.index("orig_refresh")
+        base = (("o", selfp.id), "deref")
+        new_r = mir.peek(E, p.mem, base + (("f", i_r),))
+        orig = mir.peek(E, p.mem, base + (("f", i_o),))
+        if new_r is None or orig is None or new_r is not orig:
+            fn = mprop.write_cex(res, "restart_refresh", p, E, "PubPoint::restart does not reset refresh to orig_refresh")
+            res.violation("mir:restart-refresh-not-reset", "restart() does not reset the refresh time", fn)
+    # the processor's restart delegates to it
+    pb = E.prog.find("src/payload/validation.rs", "PubPointProcessor", "restart", trait="ProcessPubPoint")
+    for p in E.explore(pb, max_visits=2):
+        if p.kind == "return":
+            n += 1
+            if not p.has(r"PubPoint::restart$"):
+                fn = mprop.write_cex(res, "processor_restart", p, E, "PubPointProcessor::restart does not restart its PubPoint")
+                res.violation("mir:processor-restart-noop", "ProcessPubPoint::restart of the payload processor does not clear the collected data", fn)
+    if n < 2:
+        res.inconclusive.append("vacuity: restart paths=%d" % n)
+    res.samples.append({"restart_clears": sorted(rp[0][1]) if rp else [], "is_empty_examines": sorted(examined),
+                        "vec_fields": sorted(vec_fields)})
+    res.distinct += n
     mprop.finish_engine(res, E)
